@@ -81,7 +81,7 @@ func (r *Report) Disagree(d Disagreement) {
 			}
 		}
 	}
-	if n < 3 && len(r.Disagreements) < 40 {
+	if n < 3 && len(r.Disagreements) < 60 {
 		r.Disagreements = append(r.Disagreements, d)
 	} else if n >= 3 && len(d.Case) < len(r.Disagreements[longest].Case) {
 		r.Disagreements[longest] = d
